@@ -59,7 +59,7 @@ pub fn run(args: &[&str]) -> String {
     out
 }
 
-/// `lst <hex>`: disassemble, print the listing `mnemonic[ 0ximm]` per line,
+/// `lst <hex> [<piece sizes>|- [<pull>]]`: disassemble, print the listing `mnemonic[ 0ximm]` per line,
 /// assemble that text with the real assembler, reply with listing offsets and
 /// the re-assembled bytes.
 pub fn run_listing(args: &[&str]) -> String {
@@ -79,14 +79,26 @@ pub fn run_listing(args: &[&str]) -> String {
         let n = sz.min(rest.len());
         d.write_all(&rest[..n]).unwrap();
         rest = &rest[n..];
-        for o in d.ops() {
-            offs.push(o.offset.to_string());
-            text.push_str(&o.item.code().to_string());
-            if let Some(i) = o.item.immediate() {
-                text.push_str(" 0x");
-                text.push_str(&hex::encode(i));
+        // optional third argument: how many instructions the client takes from one `ops()` iterator before dropping
+        // it and asking for a new one (0 = until it runs dry)
+        let pull: usize = args.get(2).and_then(|x| x.parse().ok()).unwrap_or(0);
+        loop {
+            let mut got = 0usize;
+            let it = d.ops();
+            let taken: Vec<_> = if pull == 0 { it.collect() } else { it.take(pull).collect() };
+            for o in taken {
+                got += 1;
+                offs.push(o.offset.to_string());
+                text.push_str(&o.item.code().to_string());
+                if let Some(i) = o.item.immediate() {
+                    text.push_str(" 0x");
+                    text.push_str(&hex::encode(i));
+                }
+                text.push('\n');
             }
-            text.push('\n');
+            if pull == 0 || got == 0 {
+                break;
+            }
         }
         if rest.is_empty() {
             break;
